@@ -5,6 +5,7 @@ import (
 	"fmt"
 	"reflect"
 	"sort"
+	"strings"
 
 	mxj "github.com/clbanning/mxj/v2"
 	x2jw "github.com/clbanning/mxj/v2/x2j-wrapper"
@@ -124,4 +125,64 @@ func diffSnap(a, b map[string]interface{}) string {
 		}
 	}
 	return s
+}
+
+// failedCalls: one case in oneIn, a handful of API calls that FAIL (ill-formed documents, malformed paths / sub-keys /
+// key pairs / new values, missing files) or that take an error path inside (BeautifyXml on text the validity check
+// rejects) are made before the monitored calls, under whatever options the case has set. A failed call must leave
+// nothing behind: the hooked option snapshot is compared around the batch, and the monitored calls that follow are
+// judged by the same oracle as ever.
+func failedCalls(c *core.Ctx, oneIn int) {
+	r := c.R
+	if r.Intn(oneIn) != 0 {
+		return
+	}
+	c.Count("prelude:failed-calls")
+	before := mxj.VerifOptionSnapshot()
+	m := mxj.Map{"a": []interface{}{map[string]interface{}{"k": "v", "n": 1.0}, map[string]interface{}{"k": "w"}}, "b": map[string]interface{}{"k": "x"}}
+	for i, n := 0, 1+r.Intn(4); i < n; i++ {
+		switch r.Intn(14) {
+		case 0:
+			mxj.BeautifyXml([]byte("<a-b><c-d>x</a-b>"), "", " ")
+		case 1:
+			mxj.BeautifyXml([]byte("<a-b>1 &amp; 2 &lt; 3</a-b>"), "", " ")
+		case 2:
+			mxj.NewMapXml([]byte("<a><b></a>"), r.Intn(2) == 0)
+		case 3:
+			mxj.NewMapXmlSeq([]byte("<a x='1'"))
+		case 4:
+			mxj.NewMapJson([]byte(`{"a":`))
+		case 5:
+			m.ValueForKey("k", "x")
+			m.ValuesForKey("k", ":")
+		case 6:
+			m.ValuesForPath("a[x]")
+			m.ValueForPath("a[-1]")
+			m.ValuesForPath("a", "k")
+		case 7:
+			m.UpdateValuesForPath("k", "a")
+			m.UpdateValuesForPath(17, "a")
+		case 8:
+			m.NewMap("a:")
+			m.NewMap("a:b:c")
+		case 9:
+			mxj.NewMapXmlReader(strings.NewReader("<a>"))
+			mxj.NewMapJsonReader(strings.NewReader("}"))
+		case 10:
+			m.RenameKey("zz.y", "q")
+			m.Remove("zz.y")
+			m.SetValueForPath(1, "b.k.z")
+		case 11:
+			mxj.NewMapsFromXmlFile("/nonexistent/dir/file.xml")
+			mxj.NewMapsFromJsonFileRaw("/nonexistent/dir/file.json")
+		case 12:
+			mxj.NewMapFormattedXmlSeq([]byte("<a>\n <b>\n</a>"))
+			mxj.AnyXml(make(chan int))
+		default:
+			mxj.HandleXmlReader(strings.NewReader("<a><b></a>"), func(mxj.Map) bool { return true }, func(error) bool { return false })
+		}
+	}
+	if now := mxj.VerifOptionSnapshot(); !reflect.DeepEqual(now, before) {
+		c.Violate("failed-call-left-option-state", "an API call that failed (or took an internal error path) left the package option state changed", core.D{"difference(before -> after)": diffSnap(before, now)})
+	}
 }
